@@ -91,7 +91,7 @@ Value builtin_floor(Value *args) {
     if (args[0].type == VAL_FLOAT) {
         return create_float(floor(args[0].as.float_val));
     } else if (args[0].type == VAL_INT) {
-        return create_int(args[0].as.int_val);  /* Already an integer */
+        return create_float((double)args[0].as.int_val);  /* the result type is float whatever the argument */
     }
     fprintf(stderr, "Error: floor requires numeric argument\n");
     return create_void();
@@ -101,7 +101,7 @@ Value builtin_ceil(Value *args) {
     if (args[0].type == VAL_FLOAT) {
         return create_float(ceil(args[0].as.float_val));
     } else if (args[0].type == VAL_INT) {
-        return create_int(args[0].as.int_val);  /* Already an integer */
+        return create_float((double)args[0].as.int_val);  /* the result type is float whatever the argument */
     }
     fprintf(stderr, "Error: ceil requires numeric argument\n");
     return create_void();
@@ -111,7 +111,7 @@ Value builtin_round(Value *args) {
     if (args[0].type == VAL_FLOAT) {
         return create_float(round(args[0].as.float_val));
     } else if (args[0].type == VAL_INT) {
-        return create_int(args[0].as.int_val);  /* Already an integer */
+        return create_float((double)args[0].as.int_val);  /* the result type is float whatever the argument */
     }
     fprintf(stderr, "Error: round requires numeric argument\n");
     return create_void();
